@@ -20,6 +20,7 @@ func init() {
 		Assumptions: []string{"tables are extracted from switch statements in encoding/convert (a converter rewritten in another form makes the rule report UNDECIDED rather than pass)"},
 		Rules: func(r *Run) {
 		ruleCounterDirection(r, "M10", "/encoding")
+			ruleC11M11(r)
 			pk := r.P.ByPath[modPath+"/encoding/convert"]
 			if pk == nil {
 				r.Begin("M0", "anchor", 1)
@@ -28,6 +29,7 @@ func init() {
 			}
 			ruleC11M1(r, pk)
 			ruleC11M2(r, pk)
+			ruleC11M12(r, pk)
 			ruleC11M3(r, pk)
 			ruleC11M5(r, pk)
 			ruleC11M6(r)
@@ -524,4 +526,142 @@ func emptyLitGuard(pk *packages.Package, sl *structLit) (bool, string) {
 		return true, "guarded by " + types.ExprString(g.Cond)
 	}
 	return false, "its condition is `" + types.ExprString(g.Cond) + "`, which is true for non-nil inputs too"
+}
+
+// ruleC11M11: the codecs report how many bytes they consumed or produced by wrapping the stream in a counting
+// reader/writer. A count that is overwritten instead of accumulated reports only the last Read/Write — right for
+// every message that fits one call, wrong for the first large one.
+func ruleC11M11(r *Run) {
+	r.Begin("M11", "byte counts accumulate: in every Read/Write method of the module with the io.Reader/io.Writer signature, a store into an integer field of the receiver is the old value of that field plus something (never a plain overwrite)", 1)
+	p := r.P
+	n := 0
+	for _, fn := range p.Funcs {
+		if fn.Blocks == nil || fn.Signature.Recv() == nil || (fn.Name() != "Read" && fn.Name() != "Write") {
+			continue
+		}
+		sig := fn.Signature
+		if sig.Params().Len() != 1 || sig.Results().Len() != 2 || typeStr(sig.Params().At(0).Type()) != "[]byte" {
+			continue
+		}
+		name := fnName(fn)
+		k := 0
+		allInstrs(fn, func(ins ssa.Instruction) {
+			st, ok := ins.(*ssa.Store)
+			if !ok {
+				return
+			}
+			fa, isFA := st.Addr.(*ssa.FieldAddr)
+			if !isFA || fa.X != ssa.Value(fn.Params[0]) {
+				return
+			}
+			b, isB := deref(fa.Type()).Underlying().(*types.Basic)
+			if !isB || b.Info()&types.IsInteger == 0 {
+				return
+			}
+			fk := fieldKeyOfAddr(fa)
+			k++
+			n++
+			acc := false
+			if bo, isBo := st.Val.(*ssa.BinOp); isBo && bo.Op == token.ADD {
+				for _, op := range []ssa.Value{bo.X, bo.Y} {
+					if ld, isLd := op.(*ssa.UnOp); isLd && ld.Op == token.MUL && fieldKeyOfAddr(ld.X) == fk {
+						acc = true
+					}
+				}
+			}
+			r.Check(fmt.Sprintf("%s count#%d %s", name, k, fk), acc, posOf(p, st), name, "the stored value must be the field's old value plus the bytes of this call; a plain assignment forgets every earlier Read/Write of the same message")
+		})
+	}
+	if n == 0 {
+		r.Undecided("counting readers/writers", "no Read/Write method stores into an integer field of its receiver")
+	}
+}
+
+// ruleC11M12: the two converter directions are written as pairs (toX decodes what toXProto encodes). What each of them
+// produces for an absent sub-message (`if in == nil { return … }`) has to agree: when one direction turns "absent"
+// into an empty value and the other into nil, a message with an absent sub-message is decoded into something the
+// encoder writes differently, and the re-encoded bytes no longer decode to the same message (or are rejected).
+func ruleC11M12(r *Run, pk *packages.Package) {
+	r.Begin("M12", "absent sub-messages are treated alike in both directions: for every converter pair toX / toXProto that both start with `if <param> == nil { return … }`, the first result returned there is nil in both or an empty literal in both", 10)
+	type guard struct {
+		kind string
+		pos  token.Pos
+	}
+	guards := map[string]guard{}
+	for _, f := range pk.Syntax {
+		for _, d := range f.Decls {
+			fd, ok := d.(*ast.FuncDecl)
+			if !ok || fd.Body == nil || fd.Recv != nil || len(fd.Body.List) == 0 || fd.Type.Params == nil || len(fd.Type.Params.List) == 0 {
+				continue
+			}
+			is, ok := fd.Body.List[0].(*ast.IfStmt)
+			if !ok || is.Init != nil || len(is.Body.List) != 1 {
+				continue
+			}
+			be, ok := is.Cond.(*ast.BinaryExpr)
+			if !ok || be.Op != token.EQL {
+				continue
+			}
+			x, y := be.X, be.Y
+			if id, isId := x.(*ast.Ident); isId && id.Name == "nil" {
+				x, y = y, x
+			}
+			pid, isId := x.(*ast.Ident)
+			nid, isNil := y.(*ast.Ident)
+			if !isId || !isNil || nid.Name != "nil" {
+				continue
+			}
+			isParam := false
+			for _, fl := range fd.Type.Params.List {
+				for _, n := range fl.Names {
+					if n.Name == pid.Name {
+						isParam = true
+					}
+				}
+			}
+			ret, isRet := is.Body.List[0].(*ast.ReturnStmt)
+			if !isParam || !isRet || len(ret.Results) == 0 {
+				continue
+			}
+			kind := "other"
+			switch e := ret.Results[0].(type) {
+			case *ast.Ident:
+				if e.Name == "nil" {
+					kind = "nil"
+				}
+			case *ast.UnaryExpr:
+				if cl, isCl := e.X.(*ast.CompositeLit); isCl && e.Op == token.AND && len(cl.Elts) == 0 {
+					kind = "empty literal"
+				}
+			case *ast.CompositeLit:
+				if len(e.Elts) == 0 {
+					kind = "empty literal"
+				}
+			}
+			// a guard that returns an error rejects the absent input; that is a decision of its own, not a representation
+			if len(ret.Results) >= 2 {
+				if id, isId := ret.Results[len(ret.Results)-1].(*ast.Ident); !isId || id.Name != "nil" {
+					kind = "rejects"
+				}
+			}
+			guards[fd.Name.Name] = guard{kind, ret.Pos()}
+		}
+	}
+	p := r.P
+	var names []string
+	for n := range guards {
+		names = append(names, n)
+	}
+	sort.Strings(names)
+	pairs := 0
+	for _, n := range names {
+		enc, ok := guards[n+"Proto"]
+		if !ok {
+			continue
+		}
+		dec := guards[n]
+		pairs++
+		r.Check("pair "+n+" / "+n+"Proto", dec.kind == enc.kind || dec.kind == "rejects" || enc.kind == "rejects", p.pos(dec.pos), n, fmt.Sprintf("%s returns %s for an absent input, %sProto returns %s", n, dec.kind, n, enc.kind))
+	}
+	r.Stat("pairs", pairs)
 }
